@@ -15,6 +15,7 @@ from . import C10 as P10
 
 PROP = "C16"
 PROP_V = "theories/props/C16.v"
+MODEL_AREAS = ('front', 'types')
 
 
 def spec_check_wf(env, anns, obs):
